@@ -184,6 +184,9 @@ pub struct DbgCase {
     /// label name → index of the statement it marks
     pub labels: Vec<(String, usize)>,
     pub cmds: Vec<Cmd>,
+    /// run in the normal (non `--minimal`) output mode: what the debugger prints is then not
+    /// compared (the model covers minimal-mode output only), everything else is
+    pub nm: bool,
 }
 
 impl DbgCase {
@@ -235,10 +238,17 @@ impl DbgCase {
             s.push(' ');
             s.push_str(&toks);
         }
+        if self.nm {
+            s.push_str(" NM");
+        }
         s
     }
     pub fn parse(line: &str, tag: &'static str) -> Option<DbgCase> {
-        let f: Vec<&str> = line.split_whitespace().collect();
+        let mut f: Vec<&str> = line.split_whitespace().collect();
+        let nm = f.last() == Some(&"NM");
+        if nm {
+            f.pop();
+        }
         let h = |i: usize| -> Option<usize> { usize::from_str_radix(f.get(i)?, 16).ok() };
         let mut i = 1;
         let stack = *f.get(i)? != "0";
@@ -278,7 +288,7 @@ impl DbgCase {
             cmds.push(Cmd::parse(f.get(i)?)?);
             i += 1;
         }
-        Some(DbgCase { tag, stack, fuel, inp, orig, words, breaks, labels, cmds })
+        Some(DbgCase { tag, stack, fuel, inp, orig, words, breaks, labels, cmds, nm })
     }
 }
 
@@ -337,7 +347,7 @@ pub struct DbgObs {
 
 pub fn run_plain(cap: &mut Capture, c: &DbgCase) -> String {
     set_features(c.stack);
-    lace::set_minimal(true);
+    lace::set_minimal(!c.nm);
     let mut image = vec![c.orig];
     image.extend_from_slice(&c.words);
     let mut slot = None;
@@ -367,7 +377,7 @@ pub fn run_plain(cap: &mut Capture, c: &DbgCase) -> String {
 /// Run the session on the real assembler + debugger.
 pub fn run_debug(cap: &mut Capture, c: &DbgCase) -> DbgObs {
     set_features(c.stack);
-    lace::set_minimal(true);
+    lace::set_minimal(!c.nm);
     lace::reset_state();
     let src: &'static str = Box::leak(c.source().into_boxed_str());
     let script = c.script();
@@ -440,7 +450,7 @@ pub fn run_debug(cap: &mut Capture, c: &DbgCase) -> DbgObs {
         None => "-".to_string(),
     };
     let lines = stderr_lines(&err);
-    let errs = if lines.is_empty() { "-".to_string() } else { lines.iter().map(|l| hex(l.as_bytes())).collect::<Vec<_>>().join(",") };
+    let errs = if c.nm { "~".to_string() } else if lines.is_empty() { "-".to_string() } else { lines.iter().map(|l| hex(l.as_bytes())).collect::<Vec<_>>().join(",") };
     let program = format!("{} {} |{} | {}", head, show_regs(&env), d, hex(&out));
     let line = format!(
         "{} {} |{} | {} {} | {} {:016x} | {} {:016x} | {} | {}",
@@ -466,7 +476,7 @@ pub fn decorate(rng: &mut Rng, p: &Prog, tag: &'static str, cmds: Vec<Cmd>, fuel
             labels.push((format!("zq{}", k), idx));
         }
     }
-    DbgCase { tag, stack: p.stack, fuel, inp: p.inp.clone(), orig: p.orig, words: p.words.clone(), breaks, labels, cmds }
+    DbgCase { tag, stack: p.stack, fuel, inp: p.inp.clone(), orig: p.orig, words: p.words.clone(), breaks, labels, cmds, nm: false }
 }
 
 pub fn rand_loc(rng: &mut Rng, c_orig: u16, n: usize, labels: &[(String, usize)]) -> Loc {
@@ -578,6 +588,7 @@ pub fn run_c09(o: &crate::Opts) {
         }
         finish_script(&mut rng, &mut cmds, !p.inp.is_empty());
         c.cmds = cmds;
+        c.nm = !c.words.contains(&0xF027) && rng.chance(1, 5);
         let obs = run_debug(&mut cap, &c);
         let plain = run_plain(&mut cap, &c);
         // the `exit` command ends the program early by design: transparency is claimed for
@@ -802,6 +813,9 @@ fn gen_case(rng: &mut Rng, tag: &'static str) -> (DbgCase, &'static str) {
         cmds.push(Cmd::Quit);
     }
     c.cmds = cmds;
+    // one session in five runs in the normal output mode (programs without the REG trap, whose
+    // table differs between the modes)
+    c.nm = !c.words.contains(&0xF027) && rng.chance(1, 5);
     (c, p.kind)
 }
 
@@ -1021,7 +1035,7 @@ impl TextCase {
         let arg = if *a == "N" { None } else { Some(String::from_utf8(unhex(&a[1..])?).ok()?) };
         let stdin = String::from_utf8(unhex(f.get(i + 1)?)?).ok()?;
         Some(TextCase {
-            base: DbgCase { tag: "T09", stack, fuel, inp: vec![], orig, words, breaks, labels, cmds: vec![] },
+            base: DbgCase { tag: "T09", stack, fuel, inp: vec![], orig, words, breaks, labels, cmds: vec![], nm: false },
             arg,
             stdin,
         })
